@@ -58,6 +58,13 @@ func mkInput(t, it int) []byte {
 		}
 		b = append(b, ln(2, inner)...)
 	}
+	if t == 0 && it == 0 {
+		// thread 0's first input: three nested elements, the SECOND one malformed (a key without a value) inside a
+		// well-formed outer message: NestedResults fails half-way for this thread only
+		b = append(b, ln(2, vi(1, 901))...)
+		b = append(b, ln(2, []byte{0x08})...)
+		b = append(b, ln(2, vi(1, 903))...)
+	}
 	b = append(b, ln(3, []byte(fmt.Sprintf("thread-%d-iteration-%d", t, it)))...)
 	return b
 }
@@ -203,6 +210,8 @@ func mkHarness(sc scenario) func() vsync.Harness {
 						if !lazyref.ClassOK(err, lazyref.ENotFound) {
 							vsync.Failf("isolation/NestedResults/stale", "T%d %s: no nested messages in own input, got (%d, %v)", t, what, len(nrs), err)
 						}
+					} else if !allWellFormed(occs) {
+						// a malformed nested element: an error is the expected answer; whatever is returned is not read
 					} else if err != nil || len(nrs) != len(occs) {
 						vsync.Failf("isolation/NestedResults/wrong-count", "T%d %s: %d results, err %v; own input has %d", t, what, len(nrs), err, len(occs))
 					} else {
@@ -237,6 +246,15 @@ func mkHarness(sc scenario) func() vsync.Harness {
 		}
 		return vsync.Harness{Threads: bodies, Final: final}
 	}
+}
+
+func allWellFormed(occs []lazyref.Occ) bool {
+	for _, o := range occs {
+		if _, ok := lazyref.RefFields(o.Payload); !ok {
+			return false
+		}
+	}
+	return true
 }
 
 func shortStack() string {
